@@ -833,7 +833,11 @@ class MaterializedNodeCollector(CachedWalkMapper[[]]):
                     isinstance(expr, Array)
                     and expr.tags_of_type(ImplStored))):
             self.materialized_nodes.add(expr)
-        elif isinstance(expr, DistributedSendRefHolder):
+
+        # Not part of the chain above: a holder carries the tags of its
+        # passthrough data, and its payload is sent (i.e. materialized)
+        # whether or not the holder itself is stored.
+        if isinstance(expr, DistributedSendRefHolder):
             self.materialized_nodes.add(expr.send.data)
         elif isinstance(expr, LoopyCall):
             for subexpr in expr.bindings.values():
